@@ -27,7 +27,9 @@ Inductive viol :=
 | VDup (t : nat)                  (* more callbacks than requests for t (twice, or never requested) *)
 | VAfterDestroy (t : nat)         (* callback after ares_destroy() returned *)
 | VIncompleteAtDestroy (t : nat)  (* t not completed when ares_destroy() returned / at the end *)
-| VIncompleteAtCancel (t : nat).  (* t was pending when ares_cancel() was called and still is when it returns *)
+| VIncompleteAtCancel (t : nat)   (* t was pending when ares_cancel() was called and still is when it returns *)
+| VWrongStatusAtCancel (t : nat) (st : Z)   (* t, pending when ares_cancel() was called, completed inside it with a status other than ARES_ECANCELLED *)
+| VWrongStatusAtDestroy (t : nat) (st : Z). (* t, pending when ares_destroy() was called, completed inside it with a status other than ARES_EDESTRUCTION (or ARES_ECANCELLED) *)
 
 Definition count_req (tr : list event) (t : nat) : nat :=
   length (filter (fun e => match e with EvReq t' => Nat.eqb t t' | _ => false end) tr).
@@ -101,3 +103,68 @@ Definition complete_at_cancel (tr : list event) : Prop :=
 
 Definition trace_ok (tr : list event) : Prop :=
   at_most_once tr /\ none_after_destroy tr /\ complete_at_destroy tr /\ complete_at_cancel tr.
+
+(* ------------------------------------------------------------------------------------- *)
+(* The status with which a request ends when the application cancels / destroys           *)
+(* ------------------------------------------------------------------------------------- *)
+(* ARES_ECANCELLED = 24, ARES_EDESTRUCTION = 16 (coq/Gen/Consts.v; Lifecycle_status.v checks that) *)
+Definition ST_CANCELLED : Z := 24%Z.
+Definition ST_DESTRUCTION : Z := 16%Z.
+
+Definition is_cancel_end (e : event) : bool := match e with EvCancelEnd => true | _ => false end.
+Definition is_destroy_begin (e : event) : bool := match e with EvDestroyBegin => true | _ => false end.
+Definition is_req_of (t : nat) (e : event) : bool := match e with EvReq t' => Nat.eqb t t' | _ => false end.
+(* what takes a running ares_destroy() out of the documented use: a request or a server-list
+   change made from a callback *)
+Definition disturbs (e : event) : bool := match e with EvReq _ | EvSetServers => true | _ => false end.
+
+(* position of the last event satisfying p *)
+Fixpoint last_pos (p : event -> bool) (pre : list event) (i : nat) (acc : option nat) : option nat :=
+  match pre with
+  | [] => acc
+  | e :: r => last_pos p r (S i) (if p e then Some i else acc)
+  end.
+
+(* a callback for t with status st after the events pre: inside a top-level ares_cancel() that
+   has not returned, t requested before it, status not ARES_ECANCELLED *)
+Definition cancel_bad (pre : list event) (t : nat) (st : Z) : bool :=
+  match last_pos is_cancel_begin pre 0 None with
+  | Some j => negb (existsb is_cancel_end (skipn j pre)) && existsb (is_req_of t) (firstn j pre)
+              && negb (Z.eqb st ST_CANCELLED)
+  | None => false
+  end.
+
+(* ... inside ares_destroy(), no request / server-list change made from a callback so far, t
+   requested before it, status neither ARES_EDESTRUCTION nor (ares_cancel() from a callback)
+   ARES_ECANCELLED *)
+Definition destroy_bad (pre : list event) (t : nat) (st : Z) : bool :=
+  match last_pos is_destroy_begin pre 0 None with
+  | Some j => negb (existsb disturbs (skipn (S j) pre)) && existsb (is_req_of t) (firstn j pre)
+              && negb (Z.eqb st ST_DESTRUCTION || Z.eqb st ST_CANCELLED)
+  | None => false
+  end.
+
+Definition status_check (tr : list event) (i : nat) : option viol :=
+  match nth_error tr i with
+  | Some (EvCb t st) =>
+      let pre := firstn i tr in
+      if cancel_bad pre t st then Some (VWrongStatusAtCancel t st)
+      else if destroy_bad pre t st then Some (VWrongStatusAtDestroy t st) else None
+  | _ => None
+  end.
+
+Definition status_violations (tr : list event) : list viol :=
+  flat_map (fun i => match status_check tr i with Some v => [v] | None => [] end) (seq 0 (length tr)).
+
+Definition status_monitor (tr : list event) : verdict :=
+  match status_violations tr with [] => VOk | v :: _ => VBad v end.
+
+(* declarative reading *)
+Definition status_at_cancel (tr : list event) : Prop :=
+  forall before mid t st post, tr = before ++ EvCancelBegin :: mid ++ EvCb t st :: post ->
+    ~ In EvCancelBegin mid -> ~ In EvCancelEnd mid -> In (EvReq t) before -> st = ST_CANCELLED.
+Definition status_at_destroy (tr : list event) : Prop :=
+  forall before mid t st post, tr = before ++ EvDestroyBegin :: mid ++ EvCb t st :: post ->
+    ~ In EvDestroyBegin mid -> (forall e, In e mid -> disturbs e = false) -> In (EvReq t) before ->
+    st = ST_DESTRUCTION \/ st = ST_CANCELLED.
+Definition status_ok (tr : list event) : Prop := status_at_cancel tr /\ status_at_destroy tr.
